@@ -28,7 +28,7 @@ Proof. exact TieWrites.evaluation_path_is_populated. Qed.
 Print Assumptions evaluation_path_is_populated.
 
 Theorem no_mutable_package_state :
-  forallb (fun v => match v with (_, _, c) => String.eqb c "fixed" end) go_package_vars = true.
+  forallb (fun v => match v with (_, _, c) => String.eqb c "fixed" || String.eqb c "unwritten" end) go_package_vars = true.
 Proof. exact TieWrites.no_mutable_package_state. Qed.
 Print Assumptions no_mutable_package_state.
 
